@@ -223,7 +223,10 @@ def _boot(proto):
 # ===================================================================================== link configurations
 OPP_SW = [('s0_0', 0x20, 8, 0), ('s0_1', 0x20, 8, 1), ('s0_8', 0x20, 8, 8), ('s0_21', 0x20, 8, 21), ('s0_31', 0x20, 8, 31),
           ('s1_0', 0x21, 8, 0), ('s1_5', 0x21, 8, 5), ('s1_13', 0x21, 8, 13),
-          ('m1_32', 0x21, 0x19, 0), ('m1_37', 0x21, 0x19, 5), ('m1_61', 0x21, 0x19, 29), ('m1_95', 0x21, 0x19, 63)]
+          ('m1_32', 0x21, 0x19, 0), ('m1_37', 0x21, 0x19, 5), ('m1_61', 0x21, 0x19, 29), ('m1_95', 0x21, 0x19, 63),
+          # boundary inputs: the first and the last input bit of every input wing of both cards
+          ('s0_7', 0x20, 8, 7), ('s0_15', 0x20, 8, 15), ('s0_16', 0x20, 8, 16), ('s0_23', 0x20, 8, 23), ('s0_24', 0x20, 8, 24),
+          ('s1_7', 0x21, 8, 7), ('s1_8', 0x21, 8, 8), ('s1_15', 0x21, 8, 15)]
 # OPP Gen2 wing codes (mpf/platforms/opp/opp_rs232_intf.py WING_*)
 SOL, INP, INC, MXO, MXI, NEO, HSI, NEOSOL, MXOL, LMC, LMR, SOL8, NONE = 1, 2, 3, 4, 5, 6, 7, 8, 10, 11, 12, 13, 0
 I8, M25 = 8, 0x19           # report kinds: read inputs / read matrix
@@ -278,9 +281,9 @@ def opp_rep(a, c, closed=()):
     for i in closed:
         v &= ~(1 << i)
     return opp_crc([a, c] + list(v.to_bytes(n, 'big')))
-FAST_SW = [('s_01', 1), ('s_05', 5), ('s_0a', 10), ('s_11', 17), ('s_1f', 31)]     # s_05 is normally closed
+FAST_SW = [('s_00', 0), ('s_01', 1), ('s_05', 5), ('s_0a', 10), ('s_11', 17), ('s_1f', 31)]     # s_05 is normally closed
 FAST_INV = [5]
-PK_SW = [('s_0_01', 1), ('s_0_12', 12), ('s_0_30', 30)]
+PK_SW = [('s_0_01', 1), ('s_0_12', 12), ('s_0_30', 30), ('s_0_35', 35)]     # 1 and 35: first and last input of the board
 
 
 def _asc(s):
@@ -308,7 +311,10 @@ def links():
                      opp_crc([0x20, I, 0x7f, 0xdf, 0xfe, 0xfd]),
                      opp_crc([0x21, I, 0xff, 0xff, 0xdf, 0xfe]), opp_crc([0x21, I, 0xff, 0xff, 0xff, 0xdf]),
                      opp_crc([0x21, M, 0x7f, 0xff, 0xff, 0xff, 0xff, 0xff, 0xff, 0xfe]),
-                     opp_crc([0x21, M, 0xff, 0xff, 0xff, 0xff, 0xdf, 0xff, 0xff, 0xdf])]),
+                     opp_crc([0x21, M, 0xff, 0xff, 0xff, 0xff, 0xdf, 0xff, 0xff, 0xdf]),
+                     # boundary inputs of the wings (first / last bit of each input wing)
+                     opp_rep(0x20, I, [7, 8, 15, 16]), opp_rep(0x20, I, [0, 23, 24, 31]),
+                     opp_rep(0x21, I, [7, 8, 15]), opp_rep(0x21, I, [0, 7, 15])]),
         # payload bytes that look like address / command bytes; noise: address-like, matrix command, high bit
         dict(id='opp2', proto='opp', fill=[[255]], noise=[0x20, 0x19, 0x3f, 0x80], keys=[], sws=opp_sws, P=99, G=99,
              frames=[opp_crc([0x20, I, 0xff, 0x21, 0x08, 0xfe]), opp_crc([0x20, I, 0x20, 0x19, 0xff, 0xff]),
@@ -340,31 +346,31 @@ def links():
                      opp_rep(0x20, I, [0, 7]), opp_rep(0x21, M, [0, 7]), opp_rep(0x21, I, [0])]),
         dict(id='fast1', proto='fast', fill=[[13]], noise=_asc('Z1') + [13, 255], keys=[n for _, n in FAST_SW],
              sws=[n for _, n in FAST_SW], P=1, G=99,
-             frames=[_asc(s + '\r') for s in ('-L:01', '/L:01', '-L:0A', '/L:0A', '-L:1F', '-L:11', '/L:1F')]),
+             frames=[_asc(s + '\r') for s in ('-L:01', '/L:01', '-L:0A', '/L:0A', '-L:1F', '-L:11', '/L:1F', '-L:00', '/L:00')]),
         dict(id='fast2', proto='fast', fill=[[13]], noise=_asc('-:AL/'), keys=[n for _, n in FAST_SW],
              sws=[n for _, n in FAST_SW], P=1, G=99,
-             frames=[_asc(s + '\r') for s in ('-L:01', '/L:01', '-L:0A', '-L:11', '/L:11', '-L:07')]),
+             frames=[_asc(s + '\r') for s in ('-L:01', '/L:01', '-L:0A', '-L:11', '/L:11', '-L:07', '-L:00')]),
         # full-state reports (SA:) between switch events: 0 quiet, 1 all bits 0 (the NC switch active), 2 and 3 some closed
         dict(id='fast3', proto='fast', fill=[[13]], noise=_asc('Z,0') + [13], keys=[n for _, n in FAST_SW],
-             sws=[n for _, n in FAST_SW], P=1, G=99, maxwire=120, reports=[0, 1, 2, 3],
+             sws=[n for _, n in FAST_SW], P=1, G=99, maxwire=120, reports=[0, 1, 2, 3, 13],
              frames=[fast_sa(), fast_sa(raw_nc=False), fast_sa([1, 10, 31]), fast_sa([1, 17], raw_nc=False)] +
-             [_asc(s + '\r') for s in ('-L:01', '/L:01', '-L:05', '/L:05', '-L:1F', '/L:0A', '-L:11')]),
+             [_asc(s + '\r') for s in ('-L:01', '/L:01', '-L:05', '/L:05', '-L:1F', '/L:0A', '-L:11', '-L:00', '/L:00')] + [fast_sa([0, 31])]),
         # the same with short reports (4 data bytes cover the configured switches): small enough for the exhaustive runs
         dict(id='fast3s', proto='fast', fill=[[13]], noise=_asc(',Z') + [13], keys=[n for _, n in FAST_SW],
-             sws=[n for _, n in FAST_SW], P=1, G=99, san=4, maxwire=80, reports=[0, 1, 2],
+             sws=[n for _, n in FAST_SW], P=1, G=99, san=4, maxwire=80, reports=[0, 1, 2, 8],
              frames=[fast_sa(n=4), fast_sa([1, 10, 31], n=4), fast_sa([5, 17], raw_nc=False, n=4)] +
-             [_asc(s + '\r') for s in ('-L:01', '-L:05', '/L:01', '/L:1F')]),
+             [_asc(s + '\r') for s in ('-L:01', '-L:05', '/L:01', '/L:1F', '-L:00')] + [fast_sa([0, 31], n=4)]),
         # a Nano: reports "SA:aa,bb,<count>,<9 data bytes>", network switch events -N: / /N: (-L: means nothing to it)
         dict(id='fast4', proto='fast', mach='fastnano', fill=[[13]], noise=_asc('Z,L') + [13], keys=[n for _, n in FAST_SW],
-             sws=[n for _, n in FAST_SW], P=1, G=99, saf=3, san=9, swc=ord('N'), maxwire=120, reports=[0, 1, 2],
+             sws=[n for _, n in FAST_SW], P=1, G=99, saf=3, san=9, swc=ord('N'), maxwire=120, reports=[0, 1, 2, 11],
              frames=[fast_sa(n=9, fmt='nano'), fast_sa([1, 10, 31], n=9, fmt='nano'), fast_sa([17], raw_nc=False, n=9, fmt='nano')] +
-             [_asc(s + '\r') for s in ('-N:01', '/N:01', '-N:05', '-N:1F', '/N:0A', '-N:11')]),
+             [_asc(s + '\r') for s in ('-N:01', '/N:01', '-N:05', '-N:1F', '/N:0A', '-N:11', '-N:00', '/N:00')] + [fast_sa([0, 31], n=9, fmt='nano')]),
         dict(id='pkone1', proto='pkone', fill=[], noise=_asc('Z1E') + [255], keys=[n for _, n in PK_SW],
              sws=[n for _, n in PK_SW], P=1, G=99,
-             frames=[_asc(s + 'E') for s in ('PSW0011', 'PSW0010', 'PSW0121', 'PSW0120', 'PSW0301', 'PSW0071')]),
+             frames=[_asc(s + 'E') for s in ('PSW0011', 'PSW0010', 'PSW0121', 'PSW0120', 'PSW0301', 'PSW0071', 'PSW0351', 'PSW0350')]),
         dict(id='pkone2', proto='pkone', fill=[], noise=_asc('0PSW'), keys=[n for _, n in PK_SW],
              sws=[n for _, n in PK_SW], P=1, G=99,
-             frames=[_asc(s + 'E') for s in ('PSW0011', 'PSW0121', 'PSW0300', 'PSW0301')]),
+             frames=[_asc(s + 'E') for s in ('PSW0011', 'PSW0121', 'PSW0300', 'PSW0301', 'PSW0351')]),
     ]
     for c in out:
         c.setdefault('saf', 1 if c['proto'] == 'fast' else 0)
@@ -673,6 +679,9 @@ def handmade(cfgs):
         ('opp2', f2[2], []), ('opp2', f2[4], []),
         ('opp3', f3[0] + f3[2] + f3[4] + E, []), ('opp3', [0xf0, 0x2f] + f3[4] + f3[5] + E, []),
         ('opp3', f3[1] + f3[4], []),
+        # boundary inputs of the wings: reports closing the first / last bit of every input wing, the last report wins
+        ('opp1', f1[7] + E, []), ('opp1', f1[7] + f1[9] + E + f1[8] + f1[10] + E, []),
+        ('opp1', f1[8] + f1[1] + f1[7] + E, []), ('opp1', f1[9] + f1[10] + f1[9] + E, []),
     ]
     # wing layouts: poll responses of the whole chain (every card and kind of report), a second poll response with other
     # states, reports of a kind the card's wings do not provide / of a card without inputs / of no card between valid ones,
@@ -710,6 +719,10 @@ def handmade(cfgs):
         ('pkone1', A('ZZEPSW0121E'), []), ('pkone1', A('PSW0') + [255] + A('11EPSW0121E'), []),
         ('pkone1', A('PSW011EPSW0301E'), []),                       # a digit dropped
         ('pkone1', A('PSWZ011EPSW0301E'), []), ('pkone2', A('PWDEPSW0011EPWDE'), []),
+        # boundary inputs: the lowest / highest switch of the FAST board, the first / last input of the PKONE board
+        ('fast1', A('-L:00\r'), []), ('fast1', A('-L:00\r-L:1F\r/L:00\r'), []), ('fast1', A('-L:1F\r-L:00\r/L:1F\r'), []),
+        ('pkone1', A('PSW0351E'), []), ('pkone1', A('PSW0351EPSW0011EPSW0350E'), []), ('pkone1', A('PSW0011EPSW0351E'), []),
+        ('pkone1', A('PSW0351EPSW0350EPSW0351E'), []), ('pkone2', A('PWDEPSW0351EPSW0010E'), []),
     ]
     # full-state reports and switch events: the last report wins, also when it repeats an earlier report
     g, gs = c['fast3']['frames'], c['fast3s']['frames']
@@ -725,12 +738,15 @@ def handmade(cfgs):
         ('fast3s', A('SA:Z,') + gs[1][6:] + A('-L:01\r') + gs[1], []),
         ('fast3s', gs[0] + A('-L:01\r') + gs[0], []), ('fast3s', gs[1] + A('/L:01\r-L:05\r') + gs[1] + gs[2], []),
         ('fast3s', A('-L:05\r/L:1F\r') + gs[2] + A('/L:01\r') + gs[2], []),
+        ('fast3', g[13] + A('/L:00\r-L:01\r') + g[13], []), ('fast3', A('-L:00\r') + Q + g[13] + A('/L:1F\r'), []),
+        ('fast3s', gs[8] + A('/L:1F\r') + gs[0] + A('-L:00\r'), []), ('fast3s', gs[8] + A('/L:00\r') + gs[8], []),
     ]
     n4 = c['fast4']['frames']
     out += [
         ('fast4', n4[0] + A('-N:01\r') + n4[0], []), ('fast4', n4[1] + A('/N:01\r-N:05\r') + n4[1] + n4[2], []),
         ('fast4', A('-N:1F\r-L:01\r') + n4[0] + A('-N:11\r') + n4[2] + n4[2], []),
         ('fast4', A('SA:09,') + n4[1][12:] + n4[1], []),             # a Neuron style report sent to a Nano
+        ('fast4', n4[11] + A('/N:00\r') + n4[11] + A('/N:1F\r'), []), ('fast4', A('-N:00\r') + n4[0] + A('-N:00\r'), []),
     ]
     return [(c[i], wv, x) for i, wv, x in out]
 
